@@ -1,7 +1,7 @@
 /-
   Driver for C18: one TOUGH2 grid per request line.
 
-  request   rectgeo <maxvol> <conv> <atm> <left 0|1> <chars> <spaces 0|1> <order> <snap> <origin name|->
+  request   rectgeo <maxvol> <conv> <atm> <left 0|1> <chars> <spaces 0|1> <order> <snap> <remove_inactive 0|1> <origin name|->
                     <nblocks> {<name> <volume> <cx> <cy> <cz> | <name> <volume> -}*
                     <nconns>  {<b0> <b1> <dirn> <d0> <d1>}*
   names are `x` + hex; rationals `num/den` or integers.
@@ -98,12 +98,13 @@ def pReq : P (TGrid × Params) := do
   let spaces ← pNat
   let order ← pNat
   let snap ← pRat
+  let rem ← pNat
   let ot ← tok
   let nb ← pNat
   let blocks ← pMany pBlock nb
   let nc ← pNat
   let conns ← pMany pConn nc
-  pure (⟨blocks, conns⟩, ⟨mv, ⟨conv, atm, left = 1, chars, spaces = 1, order⟩, snap, nameOf ot⟩)
+  pure (⟨blocks, conns⟩, ⟨mv, ⟨conv, atm, left = 1, chars, spaces = 1, order⟩, snap, rem = 1, nameOf ot⟩)
 
 def showRat (q : Rat) : String := if q.den = 1 then s!"{q.num}" else s!"{q.num}/{q.den}"
 def showName (s : Str) : String := "x" ++ toHex s
